@@ -59,6 +59,54 @@ func svConversation(frames []*FrameSpec) func(r *svRig, step int) *SAct {
 	}
 }
 
+// svDrainProbe: after the walk, every handler returns (the one the read loop waits for first), then the
+// probe is delivered and answered.
+func svDrainProbe(walk func(r *svRig, step int) *SAct, probe *FrameSpec) func(r *svRig, step int) *SAct {
+	phase := 0
+	drained := 0
+	return func(r *svRig, step int) *SAct {
+		if phase > 0 {
+			if drained++; drained > 100 {
+				return nil // give up: the case then does not end idle (reason 6)
+			}
+		}
+		if phase == 0 {
+			if a := walk(r, step); a != nil {
+				return a
+			}
+			phase = 1
+		}
+		if phase <= 2 {
+			if t := r.fwdTarget(); t >= 0 && !r.hs[t].inOp {
+				return &SAct{Op: "hstep", H: t, Hop: &HopSpec{Op: "return"}}
+			}
+			for i, h := range r.hs {
+				if h.returned || h.inOp {
+					continue
+				}
+				if h.unary {
+					return &SAct{Op: "hstep", H: i, Hop: &HopSpec{Op: "return", Rep: i64(h.payload)}}
+				}
+				return &SAct{Op: "hstep", H: i, Hop: &HopSpec{Op: "return"}}
+			}
+			for _, h := range r.hs {
+				if !h.returned && h.inOp {
+					// parked in an operation of its body: a stream handler in RecvMsg / await is woken by a reset from the peer
+					if !h.unary {
+						return &SAct{Op: "deliver", F: &FrameSpec{Id: r.delivered[h.seq].Id, Hdr: "ok:0", Method: r.delivered[h.seq].Method, Src: "src", Dst: "dst", Rst: "rst"}}
+					}
+				}
+			}
+			if phase == 1 {
+				phase = 2
+				return &SAct{Op: "deliver", F: probe}
+			}
+			phase = 3
+		}
+		return nil
+	}
+}
+
 func svProbe(pay int64) *FrameSpec {
 	return &FrameSpec{Id: 99, Hdr: "ok:0", Method: mUnary, Src: "src", Dst: "dst", Body: i64(pay)}
 }
@@ -240,6 +288,68 @@ func TestC12(t *testing.T) {
 		}
 		frames = append(frames, svProbe(902))
 		run("randseq", frames, []string{"random", fmt.Sprintf("len=%d", n/10*10)})
+	}
+
+	// ---- handlers that abandon their input: k unconsumed bodies, then the handler returns, then the probe
+	runWalk := func(kind string, next func(r *svRig, step int) *SAct, tags []string) {
+		if !want(idx) {
+			idx++
+			return
+		}
+		em.Marker("begin", idx)
+		res := runServerScenario(t, idx, kind, next, em, tags)
+		tags = append(tags, svTagsOf(res)...)
+		if res.Leaked {
+			tags = append(tags, "leaked-at-end")
+		}
+		em.Emit(Rec{Idx: idx, Kind: kind, Desc: svScenario{Acts: res.Acts}, Obs: res.Obs, Tags: tags, Coq: "C12Walk (" + svCase(res) + ")"})
+		em.Marker("end", idx)
+		idx++
+	}
+	for k := 0; k <= 4; k++ {
+		for _, first := range []string{"", "recv", "await-after-reset", "send"} {
+			for _, other := range []bool{false, true} {
+				acts := []SAct{{Op: "deliver", F: &FrameSpec{Id: 1, Hdr: "ok:0", Method: mBidi, Src: "src", Dst: "dst"}}}
+				if other {
+					acts = append(acts, SAct{Op: "deliver", F: &FrameSpec{Id: 2, Hdr: "ok:0", Method: mCStr, Src: "src", Dst: "dst"}})
+				}
+				switch first {
+				case "await-after-reset":
+					acts = append(acts, SAct{Op: "deliver", F: &FrameSpec{Id: 1, Hdr: "ok:0", Method: mBidi, Src: "src", Dst: "dst", Rst: "rst"}})
+				case "recv":
+					acts = append(acts, SAct{Op: "hstep", H: 0, Hop: &HopSpec{Op: "recv"}})
+				case "send":
+					acts = append(acts, SAct{Op: "hstep", H: 0, Hop: &HopSpec{Op: "send", B: 77}})
+				}
+				for j := 0; j < k; j++ {
+					acts = append(acts, SAct{Op: "deliver", F: &FrameSpec{Id: 1, Hdr: "ok:0", Method: mBidi, Src: "src", Dst: "dst", Body: i64(int64(500 + j))}})
+				}
+				if first == "await-after-reset" {
+					acts = append(acts, SAct{Op: "hstep", H: 0, Hop: &HopSpec{Op: "await"}})
+				}
+				// more traffic behind the blocked read loop
+				acts = append(acts, SAct{Op: "deliver", F: &FrameSpec{Id: 7, Hdr: "ok:0", Method: mUnary, Src: "src", Dst: "dst", Body: i64(640)}})
+				pos := 0
+				script := func(r *svRig, step int) *SAct {
+					if pos < len(acts) {
+						pos++
+						return &acts[pos-1]
+					}
+					return nil
+				}
+				runWalk("abandon", svDrainProbe(script, svProbe(904)), []string{"abandon", fmt.Sprintf("unconsumed=%d", k), "first:" + first})
+			}
+		}
+	}
+
+	// ---- random walks (handlers do anything, no transport faults), then every handler returns, then the probe
+	nWalk := 120
+	if thorough() {
+		nWalk = 1500
+	}
+	for i := 0; i < nWalk; i++ {
+		rnd := newRand(int64(18000 + i))
+		runWalk("walk", svDrainProbe(svWalk(rnd, 8+rnd.Intn(30), false), svProbe(905)), []string{"walk+drain+probe"})
 	}
 
 	// ---- field-level mutations of valid conversations
